@@ -654,6 +654,36 @@ def _emit_fn(asm, out, unit, kv, block, default_props):
     hintfree = set()
     hints_lost = []
     for t in block:
+        if t.startswith('skip_until '):
+            # `skip_until "let (function, upvalues)" => "self.function_head();"`: only the statements FROM the first depth-1
+            # occurrence of the anchor on are verified; what precedes it is replaced by the given stub statement.
+            m = re.match(r'skip_until\s+"((?:[^"\\]|\\.)*)"\s*=>\s*"((?:[^"\\]|\\.)*)"', t)
+            if not m:
+                raise ExtractError("bad skip_until directive in %s: %s" % (fname, t))
+            anchor_t, head_t = m.group(1).replace('\\"', '"'), m.group(2).replace('\\"', '"')
+            mask_t = rsx.code_mask(body)
+            pat_t = r'\s*'.join(re.escape(x) for x in re.findall(r'\w+|\S', anchor_t))
+            cut = None
+            for mm in re.finditer(pat_t, body):
+                if not mask_t[mm.start()]:
+                    continue
+                depth_t = 0
+                for kk in range(mm.start()):
+                    if mask_t[kk]:
+                        if body[kk] in '([{':
+                            depth_t += 1
+                        elif body[kk] in ')]}':
+                            depth_t -= 1
+                if depth_t == 1:
+                    cut = mm.start()
+                    break
+            if cut is None:
+                raise ExtractError("anchor lost: %s: skip_until %r not found at statement level" % (fname, anchor_t))
+            n_dropped = body[:cut].count('\n')
+            body = '{\n        ' + head_t + '\n        ' + body[cut:]
+            asm.dropped.append('%s: only the statements from `%s` on are verified; the %d lines of the body before it are replaced by the stub statement `%s`'
+                               % (fname, anchor_t, n_dropped, head_t))
+            continue
         if t.startswith('truncate_at '):
             # `truncate_at "loop {" => "self.run_loop()"`: only the statements BEFORE the first depth-1 occurrence of the
             # anchor are verified; everything from there to the end of the body is replaced by the given tail expression
